@@ -7,18 +7,28 @@ S1  TLC explores spec/Throttle.tla (PlusCal; labels = th.* yield hooks of flow.T
     Two spec-level mutants must be refuted by TLC and their counterexamples are replayed on the real code:
     the pinned algorithm (CasLoop = FALSE: idle-branch CAS falling through to load / add / roll-back) and a checker
     that derives the per-token interval once, from its first request (PerCall = FALSE).
+    The rule is REPLACED UNDER TRAFFIC (action `reload' of the loader process: statistic interval, queueing limit and
+    threshold factor are state; a request is held to the parameters in force at its arrival; Spacing is owed within one
+    epoch of the rule list - see ThrottleProp for what is accepted across a reload).  Spec-level mutants Stale = si /
+    mq / tm (a reload that changes only that parameter keeps the old checker) must be refuted.
 S2  gate scenarios: TLC random simulation, the mutants' counterexamples, seeded random schedules (constant and
     per-caller thresholds);
     sequential scenarios in virtual nanoseconds: seeded random Direct rules (fractional / zero thresholds, batches 0..3,
     several statistic intervals, queueing limits incl. 0) and MemoryAdaptive + Throttling rules whose effective threshold
     is moved between requests with system_metric.SetSystemMemoryUsage, both through api.Entry; and direct DoCheck
     calls on one checker with a different threshold argument from call to call.
+    Reloads: schedules with reload steps from TLC (simulation of the reload configurations, counterexamples of the Stale
+    mutants) and seeded random ones are forced on api.Entry (mode gapi: the rule is replaced while requests are parked
+    inside the checker); sequential histories through api.Entry in which flow.LoadRules / LoadRulesOfResource replace
+    the rule between requests, changing exactly one of Threshold / StatIntervalInMs / MaxQueueingTimeMs (or the
+    MemoryAdaptive thresholds), or nothing.
 S3  harness/cmd/c10 (gate on the th.* hooks / api.Entry with the virtual clock recording the requested Sleep / DoCheck).
 S4  spec/Throttle_Trace.tla (TLC) judges the recorded request-level traces with the same operators; it derives the
     threshold of a MemoryAdaptive request from the published memory usage (ThrottleProp!MemThr) and the owed spacing
     from the request's own threshold (ThrottleProp!Iv).
 """
-import json, os, re
+import json, os, random, re
+from concurrent.futures import ThreadPoolExecutor
 from fractions import Fraction
 from math import ceil
 from vlib import main, write_ndjson, read_ndjson, MachineryError
@@ -34,6 +44,8 @@ CONSTANTS
   Last0 = %(last0)d
   CasLoop = %(casloop)s
   PerCall = %(percall)s
+  Reloads <- %(reloads)s
+  Stale = "%(stale)s"
 VIEW view
 INVARIANTS %(inv)s
 CHECK_DEADLOCK FALSE
@@ -43,21 +55,37 @@ ALLINV = 'SpacingInv BoundedWaitInv NoSpuriousInv'
 FAM = {'MCBt2': lambda x: 2, 'MCBt123': lambda x: ((x - 1) % 3) + 1, 'MCTh4': lambda x: [4, 1],
        'MCBtV': lambda x: [1, 1, 2, 1][(x - 1) % 4], 'MCThV': lambda x: [[4, 1], [2, 1], [2, 1], [1, 1]][(x - 1) % 4],
        'MCBtW': lambda x: [1, 2, 1, 0][(x - 1) % 4], 'MCThW': lambda x: [[1, 1], [4, 1], [1, 2], [2, 1]][(x - 1) % 4]}
+FAM.update({'MCBt1': lambda x: 1, 'MCBt112': lambda x: [1, 1, 2][(x - 1) % 3]})
+# Python mirror of the reload families of spec/Throttle_MC.tla: (si, maxq) of the first rule -> [(si, maxq, tm_n, tm_d), ...]
+RELOADS = {'MCRlSIup': lambda si, mq: [(2 * si, mq, 1, 1)], 'MCRlSIdown': lambda si, mq: [(si // 2, mq, 1, 1)],
+           'MCRlMQ': lambda si, mq: [(si, 1, 1, 1)], 'MCRlTM': lambda si, mq: [(si, mq, 1, 2)],
+           'MCRlSame': lambda si, mq: [(si, mq, 1, 1), (2 * si, mq, 1, 1)], 'MCRlBack': lambda si, mq: [(2 * si, mq, 1, 1), (si, mq, 1, 1)]}
+RL_1 = dict(bt='MCBt1', th='MCTh4', si=4)        # reload configurations: every caller owes 1 tick under the first rule
+RL_112 = dict(bt='MCBt112', th='MCTh4', si=8)    # batches 1, 1, 2 at 2 ticks per token (1 tick after the interval is halved)
 OLD_A = dict(bt='MCBt2', th='MCTh4', si=4)      # constant threshold: every caller owes 2 ticks
 OLD_B = dict(bt='MCBt123', th='MCTh4', si=4)    # constant threshold, batches 1, 2, 3
 VAR_V = dict(bt='MCBtV', th='MCThV', si=4)      # thresholds 4, 2, 2, 1: spacings 1, 2, 4, 4
 VAR_W = dict(bt='MCBtW', th='MCThW', si=4)      # thresholds 1, 4, 1/2 (batch over threshold), 2 (batch 0)
 
 
-def cfg(nc=3, bt='MCBt2', th='MCTh4', si=4, maxq=3, maxt=6, last0=0, casloop=True, percall=True, inv=ALLINV, extra=''):
+def cfg(nc=3, bt='MCBt2', th='MCTh4', si=4, maxq=3, maxt=6, last0=0, casloop=True, percall=True, inv=ALLINV, extra='',
+        reloads='MCNoReload', stale='none'):
     return CFG % dict(nc=nc, bt=bt, th=th, si=si, maxq=maxq, maxt=maxt, last0=last0, casloop='TRUE' if casloop else 'FALSE',
-                      percall='TRUE' if percall else 'FALSE', inv=inv, extra=extra)
+                      percall='TRUE' if percall else 'FALSE', inv=inv, extra=extra, reloads=reloads, stale=stale)
 
 
 def gate_scn(tr, sched, nc=3, bt='MCBt2', th='MCTh4', si=4, maxq=3, last0=0, btl=None, thl=None, **_):
     return dict(tr=tr, mode='gate', maxq=maxq, last0=last0, si=si,
                 bt=btl if btl is not None else [FAM[bt](x) for x in range(1, nc + 1)],
                 th=thl if thl is not None else [FAM[th](x) for x in range(1, nc + 1)], sched=sched)
+
+
+def gapi_scn(tr, sched, nc=3, bt='MCBt2', th='MCTh4', si=4, maxq=3, last0=0, reloads='MCNoReload', rng=None, **_):
+    """a schedule of the reload configurations of Throttle (entries -1 = reload) forced on api.Entry"""
+    assert th == 'MCTh4' and last0 == 0
+    return dict(tr=tr, mode='gapi', si=si, maxq=maxq, th=[4, 1], bt=[FAM[bt](x) for x in range(1, nc + 1)],
+                reloads=[dict(si=a, maxq=b, th=[4 * n, d], via=(rng.choice(['all', 'res']) if rng else 'res')) for a, b, n, d in RELOADS[reloads](si, maxq)],
+                sched=sched)
 
 
 def last_sched(out):
@@ -184,6 +212,127 @@ def var_gate_scn(tr, rng):
     return gate_scn(tr, sched, si=si, maxq=rng.choice([0, 1, 2, 3, 5, 8]), last0=rng.choice([0, 0, 1, 2, 3]), btl=btl, thl=thl)
 
 
+def rnd_gapi_scn(tr, rng):
+    """random schedule with rule reloads on api.Entry: every reload changes exactly one of statistic interval, queueing
+    limit, threshold - or nothing; thresholds divide every statistic interval of the scenario (whole ticks)"""
+    nc = rng.choice([2, 3, 3, 4, 5])
+    rule = dict(si=rng.choice([4, 8]), maxq=rng.choice([0, 1, 2, 3, 5, 8]), th=[rng.choice([1, 2, 4, 4]), 1])
+    cur, reloads = rule, []
+    for _ in range(rng.choice([1, 1, 2, 3])):
+        kind = rng.choice(['si', 'si', 'si', 'th', 'maxq', 'none'])
+        nxt = dict(cur)
+        if kind == 'si':
+            nxt['si'] = rng.choice([x for x in (4, 8, 16) if x != cur['si']])
+        elif kind == 'th':
+            nxt['th'] = [rng.choice([x for x in (1, 2, 4) if x != cur['th'][0]]), 1]
+        elif kind == 'maxq':
+            nxt['maxq'] = rng.choice([x for x in (0, 1, 2, 3, 5, 8, 12) if x != cur['maxq']])
+        reloads.append(dict(nxt, via=rng.choice(['all', 'res']), kind=kind))
+        cur = nxt
+    sched = [rng.choice([0, 0] + list(range(1, nc + 1)) * 3) for _ in range(rng.randint(8, 45))]
+    for _ in reloads:
+        sched.insert(rng.randint(0, len(sched)), -1)
+    return dict(tr=tr, mode='gapi', bt=[rng.choice([0, 1, 1, 1, 2, 2, 3]) for _ in range(nc)], reloads=reloads, sched=sched, **rule)
+
+
+THR_POOL = [Fraction(1, 2), Fraction(1), Fraction(2), Fraction(5, 2), Fraction(3), Fraction(4), Fraction(10), Fraction(100)]
+IV_POOL = [1, 2, 5, 10, 20, 50, 100, 200]
+
+
+def rl_scn(tr, rng, mem=False):
+    """sequential history through api.Entry in which the throttling rule is replaced between requests (flow.LoadRules /
+    LoadRulesOfResource); every reload changes exactly one of Threshold (MemoryAdaptive: the low / high memory
+    threshold), StatIntervalInMs, MaxQueueingTimeMs - or nothing.  Gaps are drawn relative to the spacing of the rule in
+    force AND of the rule before it, the queueing limit from values around those spacings."""
+    def thr_of(r, memv):
+        return mem_thr(r['low'], r['high'], r['lwm'], r['hwm'], memv) if mem else Fraction(r['thr_num'], r['thr_den'])
+
+    def base_of(r, memv):
+        th = thr_of(r, memv)
+        return owed(1, th, r['interval_ms']) if th > 0 else r['interval_ms'] * NS
+
+    def maxq_choice(r, memv):
+        ms = max(1, ceil(Fraction(base_of(r, memv), NS)))
+        return rng.choice([0, 1, 2, 5, 20, 100, ms - 1, ms, ms, 2 * ms, 3 * ms, 5 * ms])
+
+    interval_ms = rng.choice(IV_POOL)
+    if mem:
+        low = rng.choice([100, 100, 50, 20, 10, 4])
+        lwm, width = rng.choice([4, 1024, 1 << 20]), rng.choice([4, 8])
+        rule = dict(low=low, high=rng.choice([h for h in (1, 2, 5, 10, 25, 40) if h < low]), lwm=lwm, hwm=lwm + width, interval_ms=interval_ms)
+        levels = [0, lwm, lwm + width, lwm + width + 7] + [lwm + k for k in range(1, width)]
+        memv = rng.choice(levels)
+    else:
+        th = rng.choice(THR_POOL + [Fraction(0)] if rng.random() < 0.05 else THR_POOL)
+        rule = dict(thr_num=th.numerator, thr_den=th.denominator, interval_ms=interval_ms)
+        levels, memv = [0], 0
+    rule['maxq_ms'] = min(500, maxq_choice(rule, memv))
+    first, prev, reqs, t, maxq_all, kinds = dict(rule), None, [], 0, rule['maxq_ms'], []
+    for ph in range(rng.randint(2, 4)):
+        if ph > 0:
+            kind = rng.choice(['si', 'si', 'si', 'thr', 'maxq', 'none'])
+            nxt = dict(rule)
+            if kind == 'si':
+                nxt['interval_ms'] = rng.choice([x for x in IV_POOL if x != rule['interval_ms']])
+            elif kind == 'maxq':
+                nxt['maxq_ms'] = rng.choice([x for x in (0, 1, 2, 5, 20, 100, 500, min(500, maxq_choice(rule, memv))) if x != rule['maxq_ms']] or [7])
+            elif kind == 'thr' and mem:
+                if rng.random() < 0.5:
+                    nxt['low'] = rng.choice([x for x in (200, 100, 50, 20, 10, 4) if x > rule['high'] and x != rule['low']])
+                else:
+                    nxt['high'] = rng.choice([x for x in (1, 2, 3, 5, 10, 25, 40) if x < rule['low'] and x != rule['high']])
+            elif kind == 'thr':
+                nt = rng.choice([x for x in THR_POOL if x != Fraction(rule['thr_num'], rule['thr_den'])])
+                nxt['thr_num'], nxt['thr_den'] = nt.numerator, nt.denominator
+            gap = rng.choice([0, 0, 1, base_of(rule, memv) // 2, base_of(rule, memv), rule['maxq_ms'] * NS])
+            if t + gap > BUDGET // 2:
+                break
+            t += gap
+            reqs.append(dict(nxt, op='reload', gap=gap, via=rng.choice(['all', 'res']), kind=kind))
+            kinds.append(kind)
+            prev, rule = rule, nxt
+            maxq_all = max(maxq_all, rule['maxq_ms'])
+        for _ in range(rng.randint(1 if ph == 0 else 2, 5)):
+            if mem and rng.random() < 0.3:
+                memv = rng.choice(levels)
+            b = rng.choice([0, 1, 1, 1, 1, 2, 3])
+            th = thr_of(rule, memv)
+            iv, base_iv = owed(b, th, rule['interval_ms']), base_of(rule, memv)
+            ref = base_of(prev, memv) if prev is not None and rng.random() < 0.3 else base_iv
+            gap = gaps(rng, ref, rule['maxq_ms'])
+            # worst case: the request waits the largest limit loaded so far, and the spacing of any rule so far is added
+            if t + gap + maxq_all * NS + max(iv, 3 * base_iv, 3 * ref) + 2 > BUDGET or iv > 1_000_000_000:
+                break
+            t += gap + maxq_all * NS
+            q = dict(gap=gap, batch=b)
+            if mem:
+                q['mem'] = memv
+            reqs.append(q)
+    if not any(q.get('op') != 'reload' for q in reqs):
+        reqs.append(dict(gap=0, batch=1, **({'mem': 0} if mem else {})))
+    out = dict(first, tr=tr, mode='seq', rl=kinds, reqs=reqs)
+    if mem:
+        out['strategy'] = 'mem'
+    return out
+
+
+class _Lane:
+    """a private scratch directory for one Check.tlc call: lets several small TLC runs (spec-level mutants, simulations)
+    go side by side without sharing the run counter / directories of the check object"""
+    def __init__(self, c, tag):
+        self.scratch = os.path.join(c.scratch, 'lane-' + tag)
+        os.makedirs(self.scratch)
+        self._tlc_n = 0
+        self.cov = c.cov
+
+
+def par_tlc(c, tag, jobs, width=4):
+    """run the TLC jobs (kwargs of c.tlc, all with count=False) at most `width' at a time; results in the order of the jobs"""
+    lanes = [_Lane(c, '%s%d' % (tag, i)) for i in range(len(jobs))]
+    with ThreadPoolExecutor(width) as ex:
+        return list(ex.map(lambda lj: type(c).tlc(lj[0], **lj[1]), zip(lanes, jobs)))
+
+
 def run_and_validate(c, drv, scns, tag):
     sp = os.path.join(c.scratch, tag + '.scn.ndjson')
     tp = os.path.join(c.scratch, tag + '.trace.ndjson')
@@ -208,12 +357,16 @@ def describe(s):
         if 'bt' in s:
             return 'forced schedule %s (batches=%s thresholds=%s si=%s maxq=%s last0=%s)' % (s['sched'], s['bt'], s['th'], s['si'], s['maxq'], s['last0'])
         return 'forced schedule %s (iv=%s maxq=%s)' % (s['sched'], s['iv'], s['maxq'])
+    if s['mode'] == 'gapi':
+        return ('forced schedule %s on api.Entry (-1 = the rule is replaced), Direct+Throttling rule threshold=%s si=%sms maxq=%sms, batches=%s, reloads=%s'
+                % (s['sched'], s['th'], s['si'], s['maxq'], s['bt'], s['reloads']))
     if s['mode'] == 'chk':
         return 'sequential DoCheck calls with per-call thresholds interval=%sms maxq=%sms sleep=%s %s' % (s['interval_ms'], s['maxq_ms'], s.get('sleep'), s['reqs'])
+    rl = ' with rule reloads (changing %s)' % s['rl'] if s.get('rl') else ''
     if s.get('strategy') == 'mem':
-        return ('sequential history through api.Entry, MemoryAdaptive+Throttling rule low=%s high=%s water marks %s..%s interval=%sms maxq=%sms %s'
-                % (s['low'], s['high'], s['lwm'], s['hwm'], s['interval_ms'], s['maxq_ms'], s['reqs']))
-    return 'sequential history thr=%s/%s interval=%sms maxq=%sms %s' % (s['thr_num'], s['thr_den'], s['interval_ms'], s['maxq_ms'], s['reqs'])
+        return ('sequential history through api.Entry%s, MemoryAdaptive+Throttling rule low=%s high=%s water marks %s..%s interval=%sms maxq=%sms %s'
+                % (rl, s['low'], s['high'], s['lwm'], s['hwm'], s['interval_ms'], s['maxq_ms'], s['reqs']))
+    return 'sequential history through api.Entry%s thr=%s/%s interval=%sms maxq=%sms %s' % (rl, s['thr_num'], s['thr_den'], s['interval_ms'], s['maxq_ms'], s['reqs'])
 
 
 def handle(c, drv, scns, mism, tag):
@@ -249,35 +402,84 @@ def binding_selftest(c, tp):
             cur = []
             traces.append(cur)
         cur.append(e)
-    out, want, kinds = [], 0, [0, 0, 0]
+    out, want, kinds, used = [], 0, [0, 0, 0], set()
     for t in traces:
-        if want >= 30:
+        if min(kinds) >= 10:
             break
         waits = [e for e in t if e['op'] == 'ret' and e['res'] == 'pass' and e['w'] > 0]
-        if not waits:
+        if not waits or any(e['op'] == 'reload' for e in t):
             continue
         t = [dict(e) for e in t]
         maxq = t[0]['maxq']
-        for e in t:
-            if e['op'] == 'ret' and e['res'] == 'pass' and e['w'] > 0:
-                iv = [x for x in t if x['op'] == 'inv' and x['p'] == e['p']][-1]
-                if want % 3 == 2 and 'tn' in iv:
-                    iv['td'] *= 4
-                    kinds[2] += 1
-                else:
-                    e['w'] = maxq + 1 if want % 3 == 1 else 0
-                    kinds[want % 3 == 1] += 1
-                break
+        e = [x for x in t if x['op'] == 'ret' and x['res'] == 'pass' and x['w'] > 0][0]      # the first request that waited
+        iv = [x for x in t if x['op'] == 'inv' and x['p'] == e['p']][-1]
+        # which corruptions are GUARANTEED to break the property on this trace: waiting beyond the limit always does; a
+        # quartered threshold always does (the request waited exactly one spacing behind the reservation before it);
+        # a wait of 0 does when every request arrives at or after the pass time of the one before it, i.e. in the sequential
+        # api.Entry histories (among concurrent callers - or callers that do not honour their wait - a request that arrived
+        # early enough may legally pass BEFORE the request it queued behind)
+        sequential = 'tn' not in iv and not any(x['op'] == 'step' for x in t)
+        ok = [k for k in ((0,) if sequential else ()) + (1,) + ((2,) if 'tn' in iv else ()) if kinds[k] < 10]
+        if not ok:
+            continue
+        k = min(ok, key=lambda x: kinds[x])
+        if k == 2:
+            iv['td'] *= 4
+        else:
+            e['w'] = maxq + 1 if k == 1 else 0
+        kinds[k] += 1
+        used.add(t[0]['tr'])
         out += t
         want += 1
-    if want == 0:
-        raise MachineryError('binding self-test: no trace with a waiting request')
+    if min(kinds) == 0:
+        raise MachineryError('binding self-test: not every kind of corruption could be applied: %s' % kinds)
+    # the rule in force is state of the trace spec: quadruple the statistic interval a RELOAD event announces when, in
+    # the epoch it starts, a request waited behind another admitted request of that epoch (it then owes 4x the spacing)
+    nrl = 0
+    for t in traces:
+        if nrl >= 10:
+            break
+        if t[0]['tr'] in used:
+            continue
+        t = [dict(e) for e in t]
+        hit, inflight = None, set()
+        for i, e in enumerate(t):
+            if e['op'] == 'inv':
+                inflight.add(e['p'])
+            elif e['op'] == 'ret':
+                inflight.discard(e['p'])
+            # (a request in flight across the reload may reserve a slot between two requests of the new epoch: their distance
+            # is then more than one spacing and the corrupted trace could be a legal one)
+            if e['op'] != 'reload' or inflight:
+                continue
+            paced, invs = 0, {}
+            for x in t[i + 1:]:
+                if x['op'] == 'reload':
+                    break
+                if x['op'] == 'inv':
+                    invs[x['p']] = x
+                if x['op'] == 'ret' and x['res'] == 'pass' and x['p'] in invs and invs[x['p']]['b'] > 0:
+                    if paced and x['w'] > 0:
+                        hit = e
+                        break
+                    paced += 1
+            if hit:
+                break
+        if hit and hit['si'] * 4 < 2 ** 31:
+            hit['si'] *= 4
+            out += t
+            nrl += 1
+    if nrl == 0:
+        raise MachineryError('binding self-test: no reload trace with a request that waited behind another one of its epoch')
+    want += nrl
     cp = os.path.join(c.scratch, 'corrupt.ndjson')
     write_ndjson(cp, out)
     mism, consumed, r = c.validate('Throttle_Trace', cp, len(out))
     if len({m[0] for m in mism}) != want:
-        raise MachineryError('binding self-test failed: %d corrupted traces, %d rejected' % (want, len(mism)))
-    c.cov['binding_selftest'] = '%d corrupted traces (%d wait zeroed / %d wait beyond the limit / %d threshold of the request quartered), all rejected' % (want, kinds[0], kinds[1], kinds[2])
+        missed = sorted({e['tr'] for e in out if e['op'] == 'new'} - {m[0] for m in mism})
+        raise MachineryError('binding self-test failed: %d corrupted traces, %d rejected; accepted: traces %s' % (want, len(mism), missed[:5]))
+    c.cov['binding_selftest'] = ('%d corrupted traces (%d wait zeroed / %d wait beyond the limit / %d threshold of the request quartered / '
+                                 '%d statistic interval announced by a reload quadrupled), all rejected' % (want, kinds[0], kinds[1], kinds[2], nrl))
     c.log('binding self-test: %d corrupted traces, all rejected' % want)
 
 
@@ -297,7 +499,15 @@ def check(c, tier, replay):
             dict(nc=3, maxq=0, maxt=5, last0=0, **OLD_B)]
     # the threshold differs from caller to caller
     var = [dict(nc=3, maxq=3, maxt=6, last0=0, **VAR_V), dict(nc=4, maxq=2, maxt=5, last0=2, **VAR_W)]
-    configs = base + var
+    # the rule is replaced under traffic: one reload changing exactly one parameter (or none, then one)
+    rl = [dict(nc=3, maxq=3, maxt=3, reloads='MCRlSIup', **RL_1), dict(nc=3, maxq=1, maxt=3, reloads='MCRlSIdown', **RL_112),
+          dict(nc=2, maxq=3, maxt=6, reloads='MCRlSame', **OLD_B), dict(nc=2, maxq=3, maxt=6, reloads='MCRlMQ', **OLD_A),
+          dict(nc=2, maxq=4, maxt=6, reloads='MCRlTM', **OLD_B)]
+    configs = base + var + (rl if thorough else rl[:4])
+    if thorough:
+        configs += [dict(nc=3, maxq=3, maxt=6, reloads='MCRlSIup', **OLD_B), dict(nc=3, maxq=2, maxt=4, reloads='MCRlSIdown', **RL_112),
+                    dict(nc=3, maxq=3, maxt=4, reloads='MCRlSame', **RL_1), dict(nc=3, maxq=3, maxt=5, reloads='MCRlBack', **RL_1),
+                    dict(nc=3, maxq=3, maxt=5, reloads='MCRlMQ', **OLD_A), dict(nc=3, maxq=4, maxt=5, reloads='MCRlTM', **RL_112)]
     if thorough:
         configs += [dict(nc=4, maxq=2, maxt=5, last0=0, **OLD_A), dict(nc=4, maxq=3, maxt=4, last0=2, **OLD_B),
                     dict(nc=4, maxq=3, maxt=6, last0=0, **VAR_V), dict(nc=4, maxq=4, maxt=6, last0=0, **VAR_W)]
@@ -307,30 +517,45 @@ def check(c, tier, replay):
             c.inconclusive.append('Throttle.tla (compare-and-swap loop, per-call threshold) violates %s for %s' % (r.violated, k))
     c.cov['exhaustive'] = True
     scns, tr, muts = [], 0, []
-    for name, mut, inv, k in (('pinned algorithm (CasLoop=FALSE)', dict(casloop=False), 'SpacingInv', base[0]),
-                              ('pinned algorithm (CasLoop=FALSE)', dict(casloop=False), 'NoSpuriousInv', base[1]),
-                              ('interval derived once per checker (PerCall=FALSE)', dict(percall=False), 'SpacingInv', var[0]),
-                              ('interval derived once per checker (PerCall=FALSE)', dict(percall=False), 'NoSpuriousInv', var[0])):
-        r = c.tlc('Throttle_MC', cfg_text=cfg(inv=inv, **mut, **k), workers=4, timeout=900, count=False)
+    mjobs = [('pinned algorithm (CasLoop=FALSE)', dict(casloop=False), 'SpacingInv', base[0], gate_scn),
+             ('pinned algorithm (CasLoop=FALSE)', dict(casloop=False), 'NoSpuriousInv', base[1], gate_scn),
+             ('interval derived once per checker (PerCall=FALSE)', dict(percall=False), 'SpacingInv', var[0], gate_scn),
+             ('interval derived once per checker (PerCall=FALSE)', dict(percall=False), 'NoSpuriousInv', var[0], gate_scn)]
+    # a reload that changes only one parameter is taken for "unchanged" (the old checker stays in force)
+    for st, inv, k in (('si', 'SpacingInv', rl[0]), ('si', 'NoSpuriousInv', rl[1]), ('mq', 'BoundedWaitInv', rl[3]), ('tm', 'SpacingInv', rl[4]))[:4 if thorough else 3]:
+        mjobs.append(('reload changing only %s keeps the old checker (Stale=%s)' % (st, st), dict(stale=st), inv, k, gapi_scn))
+    res = par_tlc(c, 'mut', [dict(module='Throttle_MC', cfg_text=cfg(inv=inv, **mut, **k), workers=4, timeout=900, count=False)
+                             for _, mut, inv, k, _ in mjobs])
+    for (name, mut, inv, k, mk), r in zip(mjobs, res):
         if r.violated != inv:
             raise MachineryError('vacuity guard: the %s must violate %s, got %s' % (name, inv, r.violated or r.error))
         tr += 1
-        scns.append(gate_scn(tr, last_sched(r.out) + [1, 2, 3] * 6, **k))
+        scns.append(mk(tr, last_sched(r.out) + [1, 2, 3] * 6, **k))
         muts.append('%s: %s: %s' % (name, inv, scns[-1]['sched']))
     c.cov['spec_mutants'] = muts
     c.log('S1 vacuity guard: spec-level mutants refuted: %s' % muts)
     # S2 ---------------------------------------------------------------------------------------
-    for k in base + var:
-        num = 150 if not thorough else 1500
-        r = c.tlc('Throttle_Gen', cfg_text=cfg(extra='ACTION_CONSTRAINT Emit\n', **k).replace('INVARIANTS ' + ALLINV, ''),
-                  workers=1, timeout=900, count=False, args=['-simulate', 'num=%d' % num, '-depth', '40', '-seed', str(c.seed)])
-        hs = maximal(r.json_prints())
-        for sch in hs:
-            tr += 1
-            scns.append(gate_scn(tr, sch, **k))
+    sims = [(k, 150 if not thorough else 1500) for k in base + var] + [(k, 100 if not thorough else 1000) for k in (rl if thorough else rl[:3])]
+    res = par_tlc(c, 'sim', [dict(module='Throttle_Gen', cfg_text=cfg(extra='ACTION_CONSTRAINT Emit\n', **k).replace('INVARIANTS ' + ALLINV, ''),
+                                  workers=1, timeout=900, count=False, args=['-simulate', 'num=%d' % num, '-depth', '40', '-seed', str(c.seed)])
+                             for k, num in sims])
+    rng = c.rng
+    rng2 = random.Random(c.seed * 7919 + 10)    # the reload families draw from their own stream: the older families keep theirs
+    for (k, num), r in zip(sims, res):
+        if r.error:
+            raise MachineryError('TLC simulation failed for %s: %s\n%s' % (k, r.error, r.out[-2000:]))
+        if 'reloads' in k:
+            hs = [h for h in maximal(r.json_prints()) if -1 in h]
+            for sch in hs:
+                tr += 1
+                scns.append(gapi_scn(tr, sch, rng=rng2, **k))
+        else:
+            hs = maximal(r.json_prints())
+            for sch in hs:
+                tr += 1
+                scns.append(gate_scn(tr, sch, **k))
         c.log('S2 TLC simulation %s: %d schedules' % (k, len(hs)))
     ntlc = len(scns)
-    rng = c.rng
     for i in range(800 if not thorough else 10000):
         tr += 1
         nc = rng.choice([2, 3, 3, 4, 5])
@@ -352,10 +577,25 @@ def check(c, tier, replay):
     for i in range(700 if not thorough else 10000):
         tr += 1
         scns.append(chk_scn(tr, rng))
+    # the rule is replaced under traffic: forced schedules with reloads on api.Entry, sequential histories with reloads
+    for i in range(500 if not thorough else 6000):
+        tr += 1
+        scns.append(rnd_gapi_scn(tr, rng2))
+    for i in range(1000 if not thorough else 12000):
+        tr += 1
+        scns.append(rl_scn(tr, rng2, mem=False))
+    for i in range(400 if not thorough else 5000):
+        tr += 1
+        scns.append(rl_scn(tr, rng2, mem=True))
+    # the first chunk feeds the binding self-test: it must contain every kind of scenario
+    head = ([x for x in scns if x.get('rl') or x['mode'] == 'gapi'][:300] + [x for x in scns if x['mode'] == 'seq' and not x.get('rl')][:200] +
+            [x for x in scns if x['mode'] == 'chk'][:100])
+    hid = {x['tr'] for x in head}
+    order = head + [x for x in scns if x['tr'] not in hid]
     # S3 + S4 ----------------------------------------------------------------------------------
     first = True
-    for i in range(0, len(scns), 4000):
-        part = scns[i:i + 4000]
+    for i in range(0, len(order), 4000):
+        part = order[i:i + 4000]
         mism, tp = run_and_validate(c, drv, part, 'scn%d' % i)
         c.cov['conformance_mismatches'] += len(mism)
         handle(c, drv, part, mism, 'scn')
@@ -363,31 +603,55 @@ def check(c, tier, replay):
             binding_selftest(c, tp)
             first = False
     c.cov['distinct_nontrivial'] = len({json.dumps(s, sort_keys=True) for s in
-                                        [dict(x, tr=0) for x in scns if (x['mode'] == 'gate' and len(set(x['sched']) - {0}) > 1) or
-                                         (x['mode'] in ('seq', 'chk') and len(x['reqs']) > 1)]})
+                                        [dict(x, tr=0) for x in scns if (x['mode'] in ('gate', 'gapi') and len(set(x['sched']) - {0, -1}) > 1) or
+                                         (x['mode'] in ('seq', 'chk') and len([q for q in x['reqs'] if q.get('op') != 'reload']) > 1)]})
 
     def nthr(x):    # distinct thresholds handed to one checker
         if x['mode'] == 'gate':
             return len({tuple(t) for t in x['th']})
         if x['mode'] == 'chk':
             return len({(q['tn'], q['td']) for q in x['reqs']})
+        if x.get('rl') or x['mode'] == 'gapi':
+            return 1    # counted separately below
         if x.get('strategy') == 'mem':
             return len({mem_thr(x['low'], x['high'], x['lwm'], x['hwm'], q['mem']) for q in x['reqs']})
         return 1
     c.cov['scenarios_with_varying_threshold'] = sum(1 for x in scns if nthr(x) > 1)
+
+    def after_reload(x):    # requests that arrive after the first reload / callers that start after the first reload step
+        if x['mode'] == 'gapi':
+            i = x['sched'].index(-1) if -1 in x['sched'] and x['reloads'] else len(x['sched'])
+            return len(set(x['sched'][i:]) - set(x['sched'][:i]) - {0, -1}) if i < len(x['sched']) else 0
+        ops = [q.get('op') == 'reload' for q in x['reqs']]
+        return len(ops) - ops.index(True) - sum(ops[ops.index(True):]) if True in ops else 0
+    rls = [x for x in scns if x.get('rl') or x['mode'] == 'gapi']
+    c.cov['scenarios_with_rule_reload'] = len(rls)
+    c.cov['scenarios_with_two_requests_after_a_reload'] = sum(1 for x in rls if after_reload(x) >= 2)
+    kinds = {}
+    for x in rls:
+        for k in (x.get('rl') or [r.get('kind', 'tlc') for r in x['reloads']]):
+            kinds[k] = kinds.get(k, 0) + 1
+    c.cov['reloads_by_changed_parameter'] = kinds
     c.cov['rule'] = ('gate scenario = schedule forced on flow.ThrottlingChecker.DoCheck at the th.* yield points (%d from TLC: simulation of '
                      'Throttle + counterexamples of the spec-level mutants; %d seeded random with a constant threshold, %d with per-caller thresholds); '
                      'sequential scenario = arrival history in virtual ns: seeded random Direct throttling rule through api.Entry (%d), '
                      'MemoryAdaptive+Throttling rule with the memory usage moved between requests through api.Entry (%d), DoCheck calls with '
-                     'per-call thresholds (%d); non-trivial = distinct scenario with >= 2 callers moving / >= 2 requests'
-                     % (ntlc, ngate - ntlc, sum(1 for x in scns[nseq:] if x['mode'] == 'gate'), nseq - ngate,
-                        sum(1 for x in scns if x.get('strategy') == 'mem'), sum(1 for x in scns if x['mode'] == 'chk')))
+                     'per-call thresholds (%d); rule replaced under traffic (flow.LoadRules / LoadRulesOfResource changing exactly one of threshold, '
+                     'statistic interval, queueing limit, or nothing): schedules with reload steps forced on api.Entry (%d, of which %d from TLC), '
+                     'sequential histories with reloads through api.Entry (%d Direct, %d MemoryAdaptive); '
+                     'non-trivial = distinct scenario with >= 2 callers moving / >= 2 requests'
+                     % (sum(1 for x in scns[:ntlc] if x['mode'] == 'gate'), ngate - ntlc, sum(1 for x in scns[nseq:] if x['mode'] == 'gate'), nseq - ngate,
+                        sum(1 for x in scns if x.get('strategy') == 'mem' and not x.get('rl')), sum(1 for x in scns if x['mode'] == 'chk'),
+                        sum(1 for x in scns if x['mode'] == 'gapi'), sum(1 for x in scns[:ntlc] if x['mode'] == 'gapi'),
+                        sum(1 for x in scns if x.get('rl') and x.get('strategy') != 'mem'), sum(1 for x in scns if x.get('rl') and x.get('strategy') == 'mem')))
     c.sample(scns[0])
     c.sample(scns[ngate - 1])
     c.sample(scns[nseq - 1])
     c.sample(scns[nseq])
     c.sample([x for x in scns if x.get('strategy') == 'mem'][0])
-    c.sample(scns[-1])
+    c.sample([x for x in scns if x['mode'] == 'chk'][-1])
+    c.sample([x for x in scns if x['mode'] == 'gapi'][0])
+    c.sample([x for x in scns if x.get('rl')][0])
     c.assumptions += ['spacing entitlement iv = ceil(batch * interval / threshold of that request) computed exactly (integers) by the trace spec; the real code may round '
                       'one ns up (float): NoSpuriousReject is judged with 1 ns slack in sequential traces',
                       'relative virtual times stay below 2^31 ns in sequential traces (TLC integers)',
@@ -395,6 +659,10 @@ def check(c, tier, replay):
                       'MemoryAdaptive rules: the effective threshold is ThrottleProp!MemThr(rule, published memory usage); water marks are a power '
                       'of two apart so that the interpolation of the real code is exact in float64; WarmUp + Throttling is not driven end to end '
                       '(its moving threshold is covered by the per-call thresholds of the chk / gate scenarios)',
+                      'rule reloads: a request is held to the rule in force at its arrival; Spacing is owed between admitted requests of the same '
+                      'epoch of the rule list only (the first request after a reload owes nothing to passes scheduled under the previous rule; that an '
+                      'unchanged reload keeps the queue position is C14), a rejection may count admitted requests of any epoch but only with the '
+                      'spacing and the limit of the rule in force at its own arrival; the api.Entry gate (gapi) runs Direct rules with last0 = 0 only',
                       'gate scenarios keep statInterval / threshold a whole number of ticks for every threshold of the scenario',
                       'exhaustive interleavings only for the bounded configurations listed in tlc_runs']
 
